@@ -242,8 +242,13 @@ def roundoff(node, atom, lo, hi, pieces=512, bits=32):
     """sup over [lo,hi] of |fl-evaluation - real evaluation| of `node` (ops fadd/fsub/fmul/fma/fneg,
     constants, one atom), by interval running error analysis on `pieces` sub-intervals; also the
     enclosure of the real value.  returns (err, vlo, vhi)"""
-    u = 2.0 ** -24 if bits == 32 else 2.0 ** -53
+    prec = 24 if bits == 32 else 53
     eta = 2.0 ** -150 if bits == 32 else 2.0 ** -1075
+    def rnd(M):
+        # |RN(x) - x| <= ulp(x)/2 for every |x| <= M: the binade of M fixes the ulp (never more than 2^-prec * M)
+        if M == 0.0: return 0.0
+        if M != M or M == math.inf: return math.inf
+        return max(2.0 ** (math.frexp(M)[1] - 1 - prec), eta)
     worst = 0.0; vlo = math.inf; vhi = -math.inf
     order = [n for n in X.walk(node)]
     for i in range(pieces):
@@ -258,17 +263,17 @@ def roundoff(node, atom, lo, hi, pieces=512, bits=32):
                 (va, ea), (vb, eb) = ev(n.args[0]), ev(n.args[1])
                 v = va + vb if n.op == 'fadd' else va - vb
                 e = ea + eb
-                r = (v, up(e + u * (v.mag + e) + eta))
+                r = (v, up(e + rnd(up(v.mag + e))))
             elif n.op == 'fmul':
                 (va, ea), (vb, eb) = ev(n.args[0]), ev(n.args[1])
                 v = va * vb
                 e = va.mag * eb + vb.mag * ea + ea * eb
-                r = (v, up(e + u * (v.mag + e) + eta))
+                r = (v, up(e + rnd(up(v.mag + e))))
             elif n.op == 'fma':
                 (va, ea), (vb, eb), (vc, ec) = ev(n.args[0]), ev(n.args[1]), ev(n.args[2])
                 v = va * vb + vc
                 e = va.mag * eb + vb.mag * ea + ea * eb + ec
-                r = (v, up(e + u * (v.mag + e) + eta))
+                r = (v, up(e + rnd(up(v.mag + e))))
             elif n.op == 'fneg':
                 va, ea = ev(n.args[0]); r = (-va, ea)
             elif n.op == 'cast' and X.is_float(n.ty) and X.is_float(n.args[0].ty) and n.args[0].ty[1] <= n.ty[1]:
